@@ -969,8 +969,10 @@ Lemma Qmult_le_l_compat' k a b : 0 <= k -> a <= b -> k * a <= k * b.
 Proof. intros Hk H. assert (0 <= k * (b - a)) by (apply Qmult_le_0_compat; lra). lra. Qed.
 
 (* ---------- take rows (assets.py:968-1004): the volume delivered in the steps of the period against the prorated value ---------- *)
-Definition step_flow (mp : list mrow) (x : vec) (t : nat) : Q :=
-  qsum (map (fun r => m_factor r * nth (m_var r) x 0) (filter (fun r => Nat.eqb (m_step r) t && true) mp)).
+Definition step_flow_n (node : option string) (mp : list mrow) (x : vec) (t : nat) : Q :=
+  qsum (map (fun r => m_factor r * nth (m_var r) x 0)
+            (filter (fun r => Nat.eqb (m_step r) t && match node with None => true | Some n => at_node n r end) mp)).
+Definition step_flow (mp : list mrow) (x : vec) (t : nat) : Q := step_flow_n None mp x t.
 Definition take_steps (rg : rgrid) (tk : take) : list nat :=
   map snd (filter (fun p => in_window (fst (fst tk)) (snd (fst tk)) (fst p)) (combine (rg_tp rg) (rg_I rg))).
 (* textbook: the volume of the steps whose time point lies in the period *)
@@ -989,13 +991,29 @@ Proof.
   rewrite map_app, sdot_app, IH. apply Qplus_inj_r. unfold sdot. rewrite map_map. reflexivity.
 Qed.
 
-Lemma take_row_spec g rg mp ty tk r x : In r (take_row g rg mp None ty tk) ->
-  r_t r = ty /\ sdot (r_a r) x == qsum (map (step_flow mp x) (take_steps rg tk)).
+Lemma take_row_spec_n g rg mp node ty tk r x : In r (take_row g rg mp node ty tk) ->
+  r_t r = ty /\ sdot (r_a r) x == qsum (map (step_flow_n node mp x) (take_steps rg tk)).
 Proof.
   destruct tk as [[s e] v]. unfold take_row, take_steps. cbn [fst snd].
   set (steps := map snd (filter (fun p => in_window s e (fst p)) (combine (rg_tp rg) (rg_I rg)))).
   destruct (flat_map _ steps) as [|r0 rows] eqn:E; [intros []|]. intros [<-|[]]. cbn [r_t r_a]. split; [reflexivity|].
-  rewrite <- E. rewrite (sdot_rows_flat (fun t r => Nat.eqb (m_step r) t && true)). reflexivity.
+  rewrite <- E. rewrite (sdot_rows_flat (fun t r => Nat.eqb (m_step r) t && match node with None => true | Some n => at_node n r end)). reflexivity.
+Qed.
+Lemma take_row_spec g rg mp ty tk r x : In r (take_row g rg mp None ty tk) ->
+  r_t r = ty /\ sdot (r_a r) x == qsum (map (step_flow mp x) (take_steps rg tk)).
+Proof. apply take_row_spec_n. Qed.
+
+Lemma take_rows_iff_n g rg mp node ty tks x (vol : take -> Q) :
+  (forall tk, qsum (map (step_flow_n node mp x) (take_steps rg tk)) == vol tk) ->
+  (Forall (row_ok x) (take_rows g rg mp node ty tks) <->
+   Forall (fun tk => Forall (fun r => cmp_ok ty (vol tk) (r_b r)) (take_row g rg mp node ty tk)) tks).
+Proof.
+  intros Hv. unfold take_rows. induction tks as [|tk tks IH]; cbn [flat_map]; [split; constructor|].
+  rewrite Forall_app, IH. split.
+  - intros [H1 H2]. constructor; [|exact H2]. apply Forall_forall. intros r Hr. rewrite Forall_forall in H1. specialize (H1 r Hr).
+    destruct (take_row_spec_n g rg mp node ty tk r x Hr) as [Et Es]. unfold row_ok in H1. rewrite Et in H1. unfold cmp_ok. destruct ty; rewrite Es, Hv in H1; exact H1.
+  - intros H. inversion H as [|? ? H1 H2]; subst. split; [|exact H2]. apply Forall_forall. intros r Hr. rewrite Forall_forall in H1. specialize (H1 r Hr).
+    destruct (take_row_spec_n g rg mp node ty tk r x Hr) as [Et Es]. unfold row_ok. rewrite Et. unfold cmp_ok in H1. destruct ty; rewrite Es, Hv; exact H1.
 Qed.
 
 Lemma take_rows_iff g rg mp ty tks x (vol : take -> Q) :
@@ -1032,12 +1050,30 @@ Qed.
 Lemma step_flow_mk_rows name node ty vn off I x t :
   step_flow (mk_rows name node ty vn off (ones (List.length I)) I) x t == step_sum_off I off x t.
 Proof.
-  unfold step_flow, mk_rows. rewrite (step_flow_mk_rows_gen name node ty vn off x t I (ones (List.length I)) 0) by apply repeat_length.
+  unfold step_flow, step_flow_n, mk_rows. rewrite (step_flow_mk_rows_gen name node ty vn off x t I (ones (List.length I)) 0) by apply repeat_length.
   unfold step_sum_off. apply qsum_map_ext. intros k Hk. apply in_seq in Hk. unfold ones. rewrite nth_repeat_q by lia.
   rewrite Nat.add_0_r. destruct (Nat.eqb _ t); ring.
 Qed.
 Lemma step_flow_app m1 m2 x t : step_flow (m1 ++ m2) x t == step_flow m1 x t + step_flow m2 x t.
-Proof. unfold step_flow. rewrite filter_app, map_app, qsum_app. reflexivity. Qed.
+Proof. unfold step_flow, step_flow_n. rewrite filter_app, map_app, qsum_app. reflexivity. Qed.
+
+Lemma step_flow_n_mk_rows name nd ty vn off fac I n x t : List.length fac = List.length I ->
+  step_flow_n (Some n) (mk_rows name (Some nd) ty vn off fac I) x t ==
+  if String.eqb n nd then qsum (map (fun k => if Nat.eqb (nth k I 0%nat) t then nth k fac 0 * nth (off + k) x 0 else 0) (seq 0 (List.length I))) else 0.
+Proof.
+  intros Hl. unfold step_flow_n.
+  assert (E : filter (fun r => Nat.eqb (m_step r) t && at_node n r) (mk_rows name (Some nd) ty vn off fac I) =
+              filter (fun r => Nat.eqb (m_step r) t && String.eqb n nd) (mk_rows name (Some nd) ty vn off fac I)).
+  { apply filter_ext_in. intros r Hr. unfold mk_rows in Hr. apply in_map_iff in Hr. destruct Hr as (q & <- & _). reflexivity. }
+  rewrite E. destruct (String.eqb n nd).
+  - unfold mk_rows. rewrite (step_flow_mk_rows_gen name (Some nd) ty vn off x t I fac 0 Hl).
+    apply qsum_map_ext. intros k _. rewrite Nat.add_0_r. reflexivity.
+  - assert (E2 : filter (fun r => Nat.eqb (m_step r) t && false) (mk_rows name (Some nd) ty vn off fac I) = []).
+    { clear E. induction (mk_rows name (Some nd) ty vn off fac I) as [|r l IH]; [reflexivity|]. cbn [filter]. rewrite andb_false_r. exact IH. }
+    rewrite E2. reflexivity.
+Qed.
+Lemma step_flow_n_app node m1 m2 x t : step_flow_n node (m1 ++ m2) x t == step_flow_n node m1 x t + step_flow_n node m2 x t.
+Proof. unfold step_flow_n. rewrite filter_app, map_app, qsum_app. reflexivity. Qed.
 
 Lemma take_volume_ext rg y y' tk : Forall2 Qeq y y' -> take_volume rg y tk == take_volume rg y' tk.
 Proof.
@@ -1334,3 +1370,68 @@ Proof.
   pose proof contract_shape as SH. destruct single; destruct SH as [_ EM]; rewrite EM; [|apply Forall_app; split]; apply mk_rows_d.
 Qed.
 End ContractInstance.
+
+(* ---------------- ExtendedTransport = Transport + take rows on the quantity leaving node 1 (assets.py:2340-2397) ---------------- *)
+Definition take_ok_neg (g : grid) (rg : rgrid) (mp : list mrow) (node : string) (ty : rtype) (y : vec) (tk : take) : Prop :=
+  Forall (fun r => cmp_ok ty (- take_volume rg y tk) (r_b r)) (take_row g rg mp (Some node) ty tk).
+
+Section ExtTransportInstance.
+Variables (g : grid) (rg : rgrid) (p : transport_p) (a : aprob).
+Hypothesis Hb : transport g rg p = Some a.
+Hypothesis Hfine : rg_minor rg = None.
+Hypothesis Hdt : List.length (rg_dt rg) = rg_T rg.
+Hypothesis Hdisc : List.length (rg_disc rg) = rg_T rg.
+Hypothesis Hcost : List.length (transport_costs g rg p) = rg_T rg.
+Hypothesis Hnodes : String.eqb (tp_n1 p) (tp_n2 p) = false.
+
+Let S := tb_transport rg (tp_n1 p) (tp_n2 p) (transport_costs g rg p) (tp_min p) (tp_max p) (tp_eff p).
+
+Lemma ext_node_flow x t : step_flow_n (Some (tp_n1 p)) (ap_map a) x t == - step_sum_off (rg_I rg) 0 x t.
+Proof.
+  destruct (transport_shape g rg p a Hb Hfine) as (_ & _ & EM). rewrite EM, step_flow_n_app.
+  rewrite !step_flow_n_mk_rows by (rewrite repeat_length; reflexivity). rewrite String.eqb_refl, Hnodes, Qplus_0_r.
+  unfold step_sum_off. transitivity ((-1) * qsum (map (fun k => if Nat.eqb (nth k (rg_I rg) 0%nat) t then nth (0 + k) x 0 else 0) (seq 0 (List.length (rg_I rg))))); [|ring].
+  rewrite <- qsum_map_scale. apply qsum_map_ext. intros k Hk. apply in_seq in Hk.
+  rewrite nth_repeat_q by (unfold rg_T; lia). destruct (Nat.eqb _ t); ring.
+Qed.
+
+Definition ext_rows (mx mn : list take) : list crow :=
+  take_rows g rg (ap_map a) (Some (tp_n1 p)) RL mx ++ take_rows g rg (ap_map a) (Some (tp_n1 p)) RU mn.
+Definition tb_ext_transport (mx mn : list take) : tb :=
+  {| tb_adm := fun y => tb_adm S y /\
+                 (Forall (take_ok_neg g rg (ap_map a) (tp_n1 p) RL y) mx /\ Forall (take_ok_neg g rg (ap_map a) (tp_n1 p) RU y) mn);
+     tb_cost := tb_cost S; tb_flow := tb_flow S |}.
+
+Theorem ext_transport_unit_ok mx mn :
+  u_ok {| u_name := tp_name p; u_prob := {| ap_lp := add_rows (ap_lp a) (ext_rows mx mn); ap_map := ap_map a |};
+          u_dec := fun x => x; u_tb := tb_ext_transport mx mn |}.
+Proof.
+  destruct (transport_unit_ok g rg p a Hb Hfine Hdt Hdisc Hcost Hnodes) as (W & M & R). cbn [u_name u_prob u_dec u_tb] in *.
+  unfold u_ok. cbn [u_name u_prob u_dec u_tb ap_lp ap_map]. split; [|split; [exact M|]].
+  - destruct W as (Wl & Wu & Wr). unfold wf_lp, nvars, add_rows. cbn [lp_c lp_l lp_u lp_rows]. split; [exact Wl|split; [exact Wu|]].
+    apply Forall_app. split; [exact Wr|]. unfold ext_rows. apply Forall_app.
+    assert (TW : forall ty tks, Forall (fun r => srow_wf (List.length (lp_c (ap_lp a))) (r_a r)) (take_rows g rg (ap_map a) (Some (tp_n1 p)) ty tks)).
+    { intros ty tks. unfold take_rows. apply Forall_forall. intros r Hr. apply in_flat_map in Hr. destruct Hr as (tk & _ & Hr).
+      destruct tk as [[s e] v]. unfold take_row in Hr.
+      destruct (flat_map _ _) as [|r0 rows] eqn:E; [destruct Hr|]. destruct Hr as [<-|[]]. cbn [r_a]. rewrite <- E.
+      unfold srow_wf. apply Forall_map. apply Forall_forall. intros mr Hmr. cbn [fst].
+      apply in_flat_map in Hmr. destruct Hmr as (t & _ & Hmr). apply filter_In in Hmr. destruct Hmr as [Hmr _].
+      rewrite Forall_forall in M. destruct (M mr Hmr) as [_ Hv]. exact Hv. }
+    split; apply TW.
+  - apply (with_rows_realises (tp_name p) a (fun x => x) S (ext_rows mx mn)
+             (fun y => Forall (take_ok_neg g rg (ap_map a) (tp_n1 p) RL y) mx /\ Forall (take_ok_neg g rg (ap_map a) (tp_n1 p) RU y) mn) R).
+    + intros x _. unfold ext_rows. rewrite Forall_app.
+      assert (Hv : forall tk, qsum (map (step_flow_n (Some (tp_n1 p)) (ap_map a) x) (take_steps rg tk)) == - take_volume rg x tk).
+      { intros tk. unfold take_volume. transitivity ((-1) * qsum (map (step_sum_off (rg_I rg) 0 x) (take_steps rg tk))); [|ring].
+        rewrite <- qsum_map_scale. apply qsum_map_ext. intros t _. rewrite ext_node_flow. ring. }
+      rewrite (take_rows_iff_n g rg (ap_map a) (Some (tp_n1 p)) RL mx x (fun tk => - take_volume rg x tk) Hv).
+      rewrite (take_rows_iff_n g rg (ap_map a) (Some (tp_n1 p)) RU mn x (fun tk => - take_volume rg x tk) Hv). reflexivity.
+    + intros y y' Hy.
+      assert (E1 : forall ty tk, take_ok_neg g rg (ap_map a) (tp_n1 p) ty y tk <-> take_ok_neg g rg (ap_map a) (tp_n1 p) ty y' tk).
+      { intros ty tk. pose proof (take_volume_ext rg y y' tk Hy) as Ev. unfold take_ok_neg.
+        split; intros H; (eapply Forall_impl; [|exact H]); intros r Hr; cbn beta in *; unfold cmp_ok in *; destruct ty; lra. }
+      assert (E : forall ty tks, Forall (take_ok_neg g rg (ap_map a) (tp_n1 p) ty y) tks <-> Forall (take_ok_neg g rg (ap_map a) (tp_n1 p) ty y') tks).
+      { intros ty tks. split; intros H; apply Forall_forall; intros tk Htk; rewrite Forall_forall in H; apply E1; apply H; exact Htk. }
+      rewrite (E RL mx), (E RU mn). reflexivity.
+Qed.
+End ExtTransportInstance.
